@@ -636,3 +636,5 @@ def thorough(chk, repo):
     strict, g = G.load(repo)
     I, esc = _c09.run_shapes(repo, g)
     sweeps.data_shapes_covered(chk, repo, g, I, 'R09.7')
+    from .. import refexec
+    refexec.ring_crosscheck(chk, repo, 'R09.T')
